@@ -705,6 +705,20 @@ func splitTxs(o *ex4Op) (disc, req, other []*ex4Tx) {
 func (st *ex4State) oracle(v *vio) {
 	for i, o := range st.ops {
 		name := fmt.Sprintf("op %d (%s)", i, o.kind)
+		// reach probes: what the exchanges ended in
+		var nk *nclient4.ErrNak
+		switch {
+		case !o.returned:
+		case o.err == nil:
+			st.s.Probe("op-" + o.kind + "-succeeded")
+		case errors.As(o.err, &nk):
+			st.s.Probe("op-" + o.kind + "-nak")
+		default:
+			st.s.Probe("op-" + o.kind + "-failed")
+		}
+		if len(o.txs) > 1 && o.kind != "request" {
+			st.s.Probe("op-" + o.kind + "-retransmitted")
+		}
 		disc, req, other := splitTxs(o)
 		for _, tx := range o.txs {
 			if !tx.ok {
